@@ -168,6 +168,10 @@ def op_strategies(nparts, ngroups, profile):
         'orphanbl': st.tuples(idx, st.integers(0, 31).map(lambda v: 2 * v + 1))
         .map(lambda t: ['macro', [['rmsrv', t[0]], ['bl', t[1], True],
                                   ['cycle']]]),
+        # ... or unscheduled before the next cycle
+        'orphanrm': st.tuples(idx, st.integers(0, 31).map(lambda v: 2 * v + 1))
+        .map(lambda t: ['macro', [['rmsrv', t[0]], ['rm', t[1]],
+                                  ['cycle']]]),
     }
     if not ngroups:
         ops.pop('idg')
@@ -188,7 +192,7 @@ def flatten(ops):
 DEFAULT_WEIGHTS = {
     'app': 10, 'clone': 2, 'rm': 2, 'prio': 1, 'move': 1, 'srv': 1, 'rmsrv': 1,
     'readd': 1, 'down': 2, 'up': 2, 'downseq': 0, 'freezeflip': 0,
-    'orphanbl': 0, 'stalemark': 0, 'renewold': 0, 'freeze': 1, 'unfreeze': 1, 'bl': 1,
+    'orphanbl': 0, 'orphanrm': 0, 'stalemark': 0, 'renewold': 0, 'freeze': 1, 'unfreeze': 1, 'bl': 1,
     'renew': 1, 'idg': 1, 'rmidg': 1, 'strat': 1, 'adv': 2, 'adv_ret': 1,
     'tick': 1, 'cycle': 8,
 }
